@@ -192,6 +192,28 @@ func isTimeTime(t types.Type) bool {
 	return ok && n.Obj().Pkg() != nil && n.Obj().Pkg().Path() == "time" && n.Obj().Name() == "Time"
 }
 
+// atomicElem: for sync/atomic.Uint64, Int32, Bool ... the basic type of the value held (single-threaded model:
+// an atomic is a plain variable, A1).
+func atomicElem(t types.Type) (types.Type, bool) {
+	n, ok := types.Unalias(t).(*types.Named)
+	if !ok || n.Obj().Pkg() == nil || n.Obj().Pkg().Path() != "sync/atomic" {
+		return nil, false
+	}
+	switch n.Obj().Name() {
+	case "Uint64":
+		return types.Typ[types.Uint64], true
+	case "Uint32":
+		return types.Typ[types.Uint32], true
+	case "Int64":
+		return types.Typ[types.Int64], true
+	case "Int32":
+		return types.Typ[types.Int32], true
+	case "Bool":
+		return types.Typ[types.Bool], true
+	}
+	return nil, false
+}
+
 func namedOf(t types.Type) *types.Named {
 	t = types.Unalias(t)
 	if p, ok := t.(*types.Pointer); ok {
@@ -302,6 +324,9 @@ func (x *Exec) kindOf(t types.Type) VKind {
 	if isTimeTime(t) || x.isOpaqueNamed(t) {
 		return KScalar
 	}
+	if _, ok := atomicElem(t); ok {
+		return KScalar
+	}
 	switch u := t.Underlying().(type) {
 	case *types.Slice, *types.Array:
 		return KSlice
@@ -333,6 +358,9 @@ func (x *Exec) scalarSort(t types.Type) Sort {
 	}
 	if x.isOpaqueNamed(t) {
 		return SRef
+	}
+	if et, ok := atomicElem(t); ok {
+		return x.scalarSort(et)
 	}
 	switch u := t.Underlying().(type) {
 	case *types.Basic:
